@@ -63,6 +63,8 @@ func cliCase(c *Case) (*Case, bool) {
 		if o.AppendSNP {
 			a = append(a, "--append-snps")
 		}
+	case "indels":
+		a = []string{"sam", "indels", "-s", put("in.sam", "sam"), "--threshold", strconv.Itoa(o.MinCount), "--insertions-out", "insertions.txt", "--deletions-out", "deletions.txt"}
 	case "samvariants":
 		a = []string{"sam", "variants", "-s", put("in.sam", "sam"), "-r", put("ref.fasta", "ref"), "-a", put("anno."+o.AnnoSuffix, "anno"), "-t", th}
 		if o.Start > 0 {
